@@ -12,6 +12,7 @@ import (
 	"log/slog"
 	"net"
 	"os"
+	"sync"
 
 	wire "github.com/jeroenrinzema/psql-wire"
 	"github.com/jeroenrinzema/psql-wire/codes"
@@ -238,6 +239,7 @@ type CopyPlan struct {
 	OnStop   string // what to do when stopping early: "own" error | "complete"
 	Binary   bool   // decode rows through the library's binary row reader
 	OwnErr   int    // index into OwnErrs for the handler's own error
+	RowCtx   bool   // every Read of the binary row reader gets a context of its own, which the client side may cancel while the Read waits (Sess.CancelRead); a Read that fails with that context's error is simply repeated
 }
 
 type Stmt struct {
@@ -248,6 +250,7 @@ type Stmt struct {
 	Define      wire.Columns // not declared with the statement: the handler announces them itself through DataWriter.Define
 	Params      []oid.Oid
 	ParseParams bool // use wire.ParseParameters(query) for the declared parameters
+	EchoQuery   bool // the statement fails with an error that quotes its query text - the string the parser was handed, kept without copying
 	Ops         []Op
 }
 
@@ -263,6 +266,26 @@ type Sess struct {
 	OnExec  func(ctx context.Context, st *Stmt, w wire.DataWriter, params []wire.Parameter) // optional extra observer
 	Ctxs    []context.Context                                                               // command contexts captured by callbacks
 	KeepCtx bool
+
+	rowMu     sync.Mutex
+	rowCancel context.CancelFunc
+}
+
+// CancelRead cancels the context of the row-reader Read that is in flight (CopyPlan.RowCtx), if any.
+func (s *Sess) CancelRead() bool {
+	s.rowMu.Lock()
+	defer s.rowMu.Unlock()
+	if s.rowCancel == nil {
+		return false
+	}
+	s.rowCancel()
+	return true
+}
+
+func (s *Sess) setRowCancel(f context.CancelFunc) {
+	s.rowMu.Lock()
+	s.rowCancel = f
+	s.rowMu.Unlock()
 }
 
 type ParseRec struct{ Query string }
@@ -336,9 +359,12 @@ func Parse(ctx context.Context, query string) (wire.PreparedStatements, error) {
 		if st.ParseParams {
 			opts = append(opts, wire.WithParameters(wire.ParseParameters(query)))
 		} else if st.Params != nil {
-			opts = append(opts, wire.WithParameters(st.Params))
+			opts = append(opts, wire.WithParameters(append([]oid.Oid{}, st.Params...))) // the script keeps its own list: what the library does to the one it was given is the library's business
 		}
 		out = append(out, wire.NewStatement(func(ctx context.Context, w wire.DataWriter, params []wire.Parameter) error {
+			if st.EchoQuery {
+				return psqlerr.WithCode(errors.New("cannot execute: "+query), codes.Syntax)
+			}
 			return runStmt(ctx, s, st, w, params)
 		}, opts...))
 	}
@@ -501,7 +527,21 @@ func runCopy(ctx context.Context, c *tr.Conn, st *Stmt, w wire.DataWriter, plan 
 		}
 		rec := CopyRec{Stmt: st.ID, Read: n}
 		if br != nil {
-			row, rerr := br.Read(ctx)
+			rctx, cancel := ctx, context.CancelFunc(nil)
+			sess, _ := c.User.(*Sess)
+			if plan.RowCtx && sess != nil {
+				rctx, cancel = context.WithCancel(ctx)
+				sess.setRowCancel(cancel)
+			}
+			row, rerr := br.Read(rctx)
+			if cancel != nil {
+				sess.setRowCancel(nil)
+				cancel()
+				if rerr != nil && errors.Is(rerr, context.Canceled) && ctx.Err() == nil {
+					c.CB("copyctx", n)
+					continue // the handler's own deadline for this attempt has passed: it asks again
+				}
+			}
 			err = rerr
 			rec.Row = row
 		} else {
